@@ -374,6 +374,11 @@ class ZIPHandler(BaseHandler):
         if not self.config.getboolean("handlers.ZIP.ZIPHandler", "enabled"):
             return False
 
+        # is_zipfile() and the member cache need a path on the real file system;
+        # inside an archive getfspath() is relative to that archive.
+        if type(self.vfs) is not VFS_Real:
+            return False
+
         pattern = re.compile(self.config.get("handlers.ZIP.ZIPHandler", "pattern"))
 
         basename = self.selector
